@@ -259,6 +259,9 @@ func (s *Stream) Multicastable() Multicastable {
 
 // Hlsable 返回支持hls能力，不支持返回nil
 func (s *Stream) Hlsable() Hlsable {
+	if s.hlsPlaylist == nil { // a nil *hls.Playlist must not become a non-nil interface
+		return nil
+	}
 	return s.hlsPlaylist
 }
 
